@@ -88,6 +88,10 @@ func runC13(r *run) {
 		if cidx == 0 {
 			nN, nE = 1, 1
 		}
+		wide := cidx == 1
+		if wide {
+			nN, nE = 6, 1 // a long list: many destinations can fail for one record, the ones after them are served all the same
+		}
 		normal := perm[:nN]
 		errs := perm[3 : 3+nE]
 		if g.chance(1, 4) { // share a writer between the two lists
@@ -143,6 +147,9 @@ func runC13(r *run) {
 				baseline, _ := c13Obs(log.take(), "baseline")
 				// number of attempts a call can make: destinations of the record + of the diagnostic
 				k := 6
+				if wide {
+					k = 9
+				}
 				for sched := 0; sched < 1<<k; sched++ {
 					if r.tier == "quick" && sched > 12 && sched%5 != cidx%5 {
 						continue
